@@ -178,8 +178,10 @@ Proof. vm_compute. reflexivity. Qed.
    declares a local) prescribes and ends the same way.  `in_fragment2` is a kind checker (data vs. function values) plus
    a check that the code generator's output is what the simulation's code functions say; the C07 check evaluates the
    extracted `in_fragment` (= in_fragment1 || in_fragment2) on every program it generates.
-   PARTIAL: outside the fragment (calls in the upper bound of a named-counter from loop, calls or captured variables in a
-   step expression) the statement is established by the T1/T2/T3 correspondences only. *)
+   PARTIAL: outside the fragment (calls in the step expression of a from loop; a step that reads a captured variable the body
+   shadows; a named counter with the name of a captured variable when the upper bound contains calls; the value of a
+   function that returns no value on one path used as an operand) the statement is established by the T1/T2/T3
+   correspondences only. *)
 From MS Require Import Compile.ClosFrag Compile.ClosRel Compile.ClosSim Compile.ClosTop Compile.StmtSim Compile.StmtFragB Compile.StmtExamples Compile.ClosExamples.
 Check closure_module_correct.
 Theorem C07_closure_programs_correct_partial : forall (path : str) (p : source), in_fragment2 path p = true ->
